@@ -377,6 +377,8 @@ def _stmt_completes(st) -> bool:
     if isinstance(st, (ast.Return, ast.Raise, ast.Continue, ast.Break)):
         return False
     if isinstance(st, ast.If):
+        if _chain_sign_exhaustive(st):
+            return any(may_complete_normally(b) for b in _chain_bodies(st))
         return may_complete_normally(st.body) or may_complete_normally(st.orelse or [ast.Pass()])
     if isinstance(st, (ast.For, ast.AsyncFor)):
         return True    # zero iterations possible (orelse then runs)
@@ -400,24 +402,98 @@ def _stmt_completes(st) -> bool:
     return True
 
 
+_ALL_SIGNS = frozenset(('neg', 'zero', 'pos'))
+
+
+def _sign_cover(test, names) -> frozenset:
+    """the signs of the number called `names` for which the test is certainly true (a Boolean formula over comparisons with 0;
+    anything else: no sign is certain).  Values that are not ordered numbers raise TypeError in such a test; NaN is ignored."""
+    if isinstance(test, ast.BoolOp):
+        parts = [_sign_cover(v, names) for v in test.values]
+        out = parts[0]
+        for q in parts[1:]:
+            out = (out | q) if isinstance(test.op, ast.Or) else (out & q)
+        return out
+    if isinstance(test, ast.UnaryOp) and isinstance(test.op, ast.Not):
+        inner = _sign_exact(test.operand, names)
+        return _ALL_SIGNS - inner if inner is not None else frozenset()
+    got = _sign_exact(test, names)
+    return got if got is not None else frozenset()
+
+
+def _sign_exact(test, names):
+    """the signs for which the test is true, when the test is exactly a sign test (None otherwise)"""
+    if isinstance(test, ast.BoolOp):
+        parts = [_sign_exact(v, names) for v in test.values]
+        if any(q is None for q in parts):
+            return None
+        out = parts[0]
+        for q in parts[1:]:
+            out = (out | q) if isinstance(test.op, ast.Or) else (out & q)
+        return out
+    if isinstance(test, ast.UnaryOp) and isinstance(test.op, ast.Not):
+        inner = _sign_exact(test.operand, names)
+        return None if inner is None else _ALL_SIGNS - inner
+    if isinstance(test, ast.Name) and test.id in names:
+        return frozenset(('neg', 'pos'))          # truthiness of a number
+    if isinstance(test, ast.Compare) and len(test.ops) == 1:
+        l, r, op = test.left, test.comparators[0], test.ops[0]
+        flip = {ast.Gt: ast.Lt, ast.GtE: ast.LtE, ast.Lt: ast.Gt, ast.LtE: ast.GtE, ast.Eq: ast.Eq, ast.NotEq: ast.NotEq}
+        if isinstance(l, ast.Constant) and isinstance(r, ast.Name):
+            if type(op) not in flip:
+                return None
+            l, r, op = r, l, flip[type(op)]()
+        if isinstance(l, ast.Name) and l.id in names and isinstance(r, ast.Constant) and r.value == 0 and not isinstance(r.value, bool):
+            table = {ast.Gt: ('pos',), ast.GtE: ('pos', 'zero'), ast.Lt: ('neg',), ast.LtE: ('neg', 'zero'), ast.Eq: ('zero',),
+                     ast.NotEq: ('neg', 'pos')}
+            if type(op) in table:
+                return frozenset(table[type(op)])
+    return None
+
+
 def _sign_exhaustive(st: ast.Match) -> bool:
-    """cases {literal 0, capture if x > 0, capture if x < 0}: exhaustive over ordered numbers (anything else raises TypeError in
-    the guard; NaN is ignored)"""
-    zero = pos = neg = False
+    """cases such as {literal 0, capture if x > 0, capture if x < 0}, in any spelling: exhaustive over ordered numbers when the
+    signs the cases certainly accept are all three (anything else raises TypeError in the guard; NaN is ignored)"""
+    subject = {st.subject.id} if isinstance(st.subject, ast.Name) else set()
+    covered = frozenset()
     for c in st.cases:
         p = c.pattern
         if isinstance(p, ast.MatchValue) and isinstance(p.value, ast.Constant) and p.value.value == 0 and c.guard is None:
-            zero = True
-        if isinstance(p, ast.MatchAs) and p.pattern is None and p.name and isinstance(c.guard, ast.Compare) and \
-                len(c.guard.ops) == 1 and isinstance(c.guard.left, ast.Name) and c.guard.left.id == p.name and \
-                isinstance(c.guard.comparators[0], ast.Constant) and c.guard.comparators[0].value == 0:
-            if isinstance(c.guard.ops[0], (ast.Gt, ast.GtE)):
-                pos = True
-                zero = zero or isinstance(c.guard.ops[0], ast.GtE)
-            if isinstance(c.guard.ops[0], (ast.Lt, ast.LtE)):
-                neg = True
-                zero = zero or isinstance(c.guard.ops[0], ast.LtE)
-    return zero and pos and neg
+            covered |= {'zero'}
+        elif isinstance(p, ast.MatchAs) and p.pattern is None and c.guard is not None:
+            covered |= _sign_cover(c.guard, subject | ({p.name} if p.name else set()))
+    return covered == _ALL_SIGNS
+
+
+def _chain_sign_exhaustive(st: ast.If) -> bool:
+    """if / elif / ... without a final else whose tests together accept every sign of one number"""
+    tests, cur = [], st
+    while True:
+        tests.append(cur.test)
+        if len(cur.orelse) == 1 and isinstance(cur.orelse[0], ast.If):
+            cur = cur.orelse[0]
+            continue
+        if cur.orelse:
+            return False
+        break
+    names = {n.id for t in tests for n in ast.walk(t) if isinstance(n, ast.Name)}
+    for nm in names:
+        covered = frozenset()
+        for t in tests:
+            covered |= _sign_cover(t, {nm})
+        if covered == _ALL_SIGNS:
+            return True
+    return False
+
+
+def _chain_bodies(st: ast.If):
+    cur = st
+    while True:
+        yield cur.body
+        if len(cur.orelse) == 1 and isinstance(cur.orelse[0], ast.If):
+            cur = cur.orelse[0]
+            continue
+        break
 
 
 def _irrefutable(case: ast.match_case) -> bool:
